@@ -192,7 +192,8 @@ Lemma expand_ranges_aux : forall gcount l from prev,
 Proof.
   intros gcount l. induction l as [|x r IH]; intros from prev H0 Hle Hasc Hb H32.
   - cbn [ranges_aux expand_ranges]. rewrite !u32_id by (specialize (Hb prev (or_introl eq_refl)); lia).
-    replace ((from <=? prev) && (prev >=? gcount)) with false by (specialize (Hb prev (or_introl eq_refl)); lia).
+    replace (from >? prev) with false by lia.
+    replace (prev >=? gcount) with false by (specialize (Hb prev (or_introl eq_refl)); lia).
     cbn. rewrite !app_nil_r. reflexivity.
   - cbn [ranges_aux]. cbn in Hasc. destruct Hasc as [Hlt Hasc].
     assert (Hx : x < gcount) by (apply Hb; right; left; reflexivity).
@@ -203,7 +204,7 @@ Proof.
         rewrite zrange_snoc, <- app_assoc. cbn [app]. f_equal. f_equal. f_equal. f_equal. lia.
       * intros y Hy. apply Hb. right. assumption.
     + cbn [expand_ranges]. rewrite !u32_id by lia.
-      replace ((from <=? prev) && (prev >=? gcount)) with false by lia.
+      replace (from >? prev) with false by lia. replace (prev >=? gcount) with false by lia.
       rewrite IH; try lia; try assumption.
       * cbn [bind]. replace (Z.to_nat (x - x + 1)) with 1%nat by lia. cbn [zrange app]. reflexivity.
       * intros y Hy. apply Hb. right. assumption.
